@@ -12,6 +12,10 @@ FMTS = ["yaml", "json", "toml"]
 def ptree(rng, depth=3, wide=4):
     """null-free, $-free tree"""
     r = rng.random()
+    if depth == 2 and r < 0.12:
+        # list entries with nested containers (tags / labels): partial matches through nested values
+        return [{"name": rng.choice(["a", "b"]), "tags": rng.sample(["x", "y", "z"], rng.randint(1, 3)), "meta": {"k": rng.choice(SCAL), "j": 1}}
+                for _ in range(rng.randint(1, 3))]
     if depth <= 0 or r < 0.35:
         return rng.choice(SCAL)
     if r < 0.7:
@@ -63,6 +67,25 @@ def edit(rng, v, depth=3):
     return rng.choice(SCAL)
 
 
+def nested_partial(rng, m):
+    """An entry that bkl's pattern matching (recursive: nested maps by key subset, nested lists by element
+    subset) regards as a partial match of `m` although no top-level value is equal: shrink one nested container."""
+    cands = [k for k, v in m.items() if isinstance(v, (dict, list)) and len(v) >= 1]
+    if not cands:
+        return None
+    k = rng.choice(cands)
+    sub = {kk: gen.deep(vv) for kk, vv in m.items()}
+    v = sub[k]
+    if isinstance(v, dict):
+        v.pop(rng.choice(list(v)))
+    else:
+        v.pop(rng.randrange(len(v)))
+    others = [kk for kk in sub if kk != k]
+    if others and rng.random() < 0.4:
+        sub.pop(rng.choice(others))
+    return sub
+
+
 def edit_pair(rng):
     """(base, target): target is an arbitrary edit of base; both map-rooted"""
     base = pmap_tree(rng, depth=rng.randint(2, 4))
@@ -78,6 +101,8 @@ def edit_pair(rng):
             m = rng.choice(maps)
             drop = rng.choice(list(m))
             sub = {kk: gen.deep(vv) for kk, vv in m.items() if kk != drop}
+            if rng.random() < 0.5:
+                sub = nested_partial(rng, m) or sub
             base = dict(base)
             base[k] = list(x) + [sub]
             if m not in e:
